@@ -168,10 +168,8 @@ func c06Check(c c06Case, x *vsched.Exec, a *advWorld) (out [][2]string) {
 	var mc []time.Duration
 	for gi, g := range gens {
 		mc = append(mc, g.mc...)
-		if len(g.mc) == 0 || g.mc[0] != g.open {
-			bad("C06:no-initial-ra", "generation %d (opened at %s): multicast RAs at %v", gi, g.open, g.mc)
-			return out
-		}
+		// (An RA at the very instant a connection opens is not something C06 states; a
+		// connection on which nothing is ever sent fails the trigger check below.)
 		for i := 1; i < len(g.mc); i++ {
 			if d := g.mc[i] - g.mc[i-1]; d < 3*time.Second {
 				sig := "C06:spacing"
